@@ -267,6 +267,62 @@ def gff3_gene_priority_fn():
     return fn
 
 
+def gff3_child_rows_fn():
+    """io.gff3.parser on a top-level NON-gene feature with n child rows, each carrying its own qualifier key and a shared key with its own value: the parsed
+    feature's qualifiers are the key-wise union over ALL rows (no row is lost, whatever n); and a gene with several transcripts, some with and some
+    without transcript_id, no locus tag: every transcript gets its OWN id (None when it has none), in every record order"""
+
+    def fn(n, order, idmask):
+        n, order, idmask = concretize(n, order, idmask)
+        with untraced():
+            import logging
+            import os
+            import warnings
+
+            from harness.c11 import _tmp_path
+            from inscripta.biocantor.io.gff3.parser import parse_standard_gff3
+
+            rows = ["##gff-version 3", "##sequence-region chr1 1 900",
+                    "\t".join(["chr1", "t", "repeat_region", "11", str(10 + 10 * n), ".", "+", ".", "ID=feat1;Name=myfeat;top=t0"])]
+            for i in range(n):
+                rows.append("\t".join(["chr1", "t", "repeat_unit", str(11 + 10 * i), str(18 + 10 * i), ".", "+", ".", "ID=sub%d;Parent=feat1;own%d=v%d;shared=s%d" % (i, i, i, i)]))
+            # a gene with three transcripts at 500..; transcript i has a transcript_id iff bit i of idmask
+            perm = list(itertools.permutations(range(3)))[order]
+            rows.append("\t".join(["chr1", "t", "gene", "501", "600", ".", "+", ".", "ID=gene1;gene_id=G1"]))
+            for i in perm:
+                tid = ";transcript_id=T%d" % i if idmask >> i & 1 else ""
+                rows.append("\t".join(["chr1", "t", "mRNA", str(501 + 10 * i), str(560 + 10 * i), ".", "+", ".", "ID=tx%d;Parent=gene1%s" % (i, tid)]))
+                rows.append("\t".join(["chr1", "t", "exon", str(501 + 10 * i), str(560 + 10 * i), ".", "+", ".", "ID=ex%d;Parent=tx%d" % (i, i)]))
+            path = _tmp_path("c18rows")
+            logging.disable(logging.CRITICAL)
+            try:
+                with warnings.catch_warnings():
+                    warnings.simplefilter("ignore")
+                    with open(path, "w") as fh:
+                        fh.write("\n".join(rows) + "\n")
+                    recs = list(parse_standard_gff3(path))
+            finally:
+                logging.disable(logging.NOTSET)
+                if os.path.exists(path):
+                    os.remove(path)
+            ann = recs[0].annotation
+            fcs = ann.feature_collections or []
+            if len(fcs) != 1 or len(ann.genes) != 1:
+                return False
+            q = {}
+            for f in fcs[0].feature_intervals:
+                for k_, v in (f.qualifiers or {}).items():
+                    q.setdefault(k_, set()).update(v)
+            for k_, v in (fcs[0].qualifiers or {}).items():
+                q.setdefault(k_, set()).update(v)
+            ok = all("v%d" % i in q.get("own%d" % i, ()) for i in range(n)) and q.get("shared", set()) >= {"s%d" % i for i in range(n)}
+            got = {t.exon_starts[0]: t.transcript_id for t in ann.genes[0].transcripts}
+            want = {500 + 10 * i: ("T%d" % i if idmask >> i & 1 else None) for i in range(3)}
+            return ok and got == want
+
+    return fn
+
+
 # keys the GFF3 parser turns into BioCantor identifiers (io.gff3.constants.BioCantorQualifiers) or that GFF3 reserves, and look-alikes that must survive
 RESERVED_EXACT = ["gene_id", "gene_name", "gene_biotype", "transcript_id", "transcript_name", "transcript_biotype", "protein_id", "product", "feature_name",
                   "feature_id", "feature_type", "locus_tag", "ID", "Name", "Parent"]
@@ -312,6 +368,11 @@ def obligations(tier):
                             "parent's qualifiers (plus only the documented identifier keys on export); both operands unchanged and not aliased" % kind,
                        bounds="all %d ordered pairs of catalogue dictionaries (incl. none, empty, shared keys, case-different keys)" % (len(QD) ** 2),
                        examples=[dict(i=3, j=4), dict(i=0, j=7)]))
+    out.append(Obl("gff3_child_rows_and_sibling_transcripts", gff3_child_rows_fn(), dict(n=int, order=int, idmask=int),
+                   lambda n, order, idmask: 1 <= n and n <= 9 and 0 <= order and order <= 5 and 0 <= idmask and idmask <= 7, budget=900, cost=60,
+                   desc="GFF3 text through the real parser: a non-gene feature with 1..9 child rows keeps the qualifiers of EVERY row (key-wise union); a gene with three "
+                        "transcripts of which any subset has a transcript_id (no locus tag) gives every transcript its own id or None, in all 6 record orders",
+                   bounds="9 row counts x 6 orders x 8 id patterns (closed by the solver), parsed by gffutils natively", examples=[dict(n=3, order=0, idmask=1), dict(n=5, order=3, idmask=5)]))
     out.append(Obl("gff3_gene_attribute_priority", gff3_gene_priority_fn(), dict(perm=int, mask=int, bswap=int, idfirst=int),
                    lambda perm, mask, bswap, idfirst: 0 <= perm and perm < 24 and 1 <= mask and mask <= 15 and 0 <= bswap and bswap <= 1 and 0 <= idfirst and idfirst <= 1
                    and (tier == "thorough" or (perm + mask) % 2 == 0), budget=900, cost=60,
